@@ -21,10 +21,12 @@ def parseCfg : List String → Option RawCfg
   | ["none"] => some .noMint
   | ["unresolved"] => some .unresolved
   | ["nilcfg"] => some .nilCfg
-  | ["lin", a] => (optInt? a).map .lin
+  -- a nil `Int` / `Dec` inside a config cannot survive packing into the `Any` (the SDK's
+  -- `MarshalTo` replaces a nil amount by zero in place), so "-" reaches `Validate` as 0
+  | ["lin", a] => (optInt? a).map (fun a => .lin (some (a.getD 0)))
   | ["exp", a, step, mult] => do
       let a ← optInt? a; let s ← int? step; let m ← optInt? mult
-      pure (.exp a s m)
+      pure (.exp (some (a.getD 0)) s (some (m.getD 0)))
   | _ => none
 
 def showSt (s : St) : String :=
